@@ -21,7 +21,7 @@ package store
 import (
 	"context"
 	"database/sql"
-	"fmt"
+	"strings"
 	"time"
 
 	"github.com/cockroachdb/errors"
@@ -93,6 +93,12 @@ func (s *MySQLMetaStore) init(ctx context.Context, dataSourceName string, rootPa
 }
 
 var _ api.MetaStoreFactory = (*MySQLMetaStore)(nil)
+
+// likePrefix returns the LIKE pattern that matches exactly the keys starting with prefix:
+// the pattern characters of the prefix itself are escaped
+func likePrefix(prefix string) string {
+	return strings.NewReplacer("\\", "\\\\", "%", "\\%", "_", "\\_").Replace(prefix) + "%"
+}
 
 func (s *MySQLMetaStore) GetTaskInfoMetaStore(ctx context.Context) api.MetaStore[*meta.TaskInfo] {
 	return s.taskInfoStore
@@ -214,8 +220,8 @@ func (m *TaskInfoMysqlStore) Put(ctx context.Context, metaObj *meta.TaskInfo, tx
 }
 
 func (m *TaskInfoMysqlStore) Get(ctx context.Context, metaObj *meta.TaskInfo, txn any) ([]*meta.TaskInfo, error) {
-	sqlStr := fmt.Sprintf("SELECT task_info_value FROM task_info WHERE task_info_key LIKE '%s%%'", getTaskInfoPrefix(m.rootPath))
-	var sqlArgs []any
+	sqlStr := "SELECT task_info_value FROM task_info WHERE task_info_key LIKE ?"
+	sqlArgs := []any{likePrefix(getTaskInfoPrefix(m.rootPath))}
 	if metaObj.TaskID != "" {
 		sqlStr += " AND task_id = ?"
 		sqlArgs = append(sqlArgs, metaObj.TaskID)
@@ -277,7 +283,8 @@ func (m *TaskInfoMysqlStore) Delete(ctx context.Context, metaObj *meta.TaskInfo,
 	if taskID == "" {
 		return errors.New("task id is empty")
 	}
-	sqlStr := "DELETE FROM task_info WHERE task_id = ?"
+	sqlStr := "DELETE FROM task_info WHERE task_info_key = ?"
+	taskInfoKey := getTaskInfoKey(m.rootPath, taskID)
 	var err error
 	defer func() {
 		if err != nil {
@@ -297,13 +304,13 @@ func (m *TaskInfoMysqlStore) Delete(ctx context.Context, metaObj *meta.TaskInfo,
 			return err
 		}
 		defer stmt.Close()
-		_, err = stmt.ExecContext(cancelCtx, taskID)
+		_, err = stmt.ExecContext(cancelCtx, taskInfoKey)
 		if err != nil {
 			return err
 		}
 		return nil
 	}
-	_, err = m.db.ExecContext(cancelCtx, sqlStr, taskID)
+	_, err = m.db.ExecContext(cancelCtx, sqlStr, taskInfoKey)
 	if err != nil {
 		return err
 	}
@@ -396,8 +403,8 @@ func (m *TaskCollectionPositionMysqlStore) Put(ctx context.Context, metaObj *met
 }
 
 func (m *TaskCollectionPositionMysqlStore) Get(ctx context.Context, metaObj *meta.TaskCollectionPosition, txn any) ([]*meta.TaskCollectionPosition, error) {
-	sqlStr := fmt.Sprintf("SELECT task_id, collection_id, collection_name, task_position_value, op_position_value, target_position_value FROM task_position WHERE task_position_key LIKE '%s%%'", getTaskCollectionPositionPrefix(m.rootPath))
-	var sqlArgs []any
+	sqlStr := "SELECT task_id, collection_id, collection_name, task_position_value, op_position_value, target_position_value FROM task_position WHERE task_position_key LIKE ?"
+	sqlArgs := []any{likePrefix(getTaskCollectionPositionPrefix(m.rootPath))}
 	if metaObj.TaskID != "" || metaObj.CollectionID != 0 {
 		if metaObj.TaskID != "" {
 			sqlStr += " AND task_id = ?"
@@ -482,8 +489,8 @@ func (m *TaskCollectionPositionMysqlStore) Delete(ctx context.Context, metaObj *
 	if taskID == "" {
 		return errors.New("task id is empty")
 	}
-	sqlStr := "DELETE FROM task_position WHERE task_id = ?"
-	var sqlArgs []any = []any{taskID}
+	sqlStr := "DELETE FROM task_position WHERE task_position_key LIKE ? AND task_id = ?"
+	var sqlArgs []any = []any{likePrefix(getTaskCollectionPositionPrefix(m.rootPath)), taskID}
 	if metaObj.CollectionID != 0 {
 		sqlStr += " AND collection_id = ?"
 		sqlArgs = append(sqlArgs, metaObj.CollectionID)
